@@ -111,8 +111,26 @@ fn noise_run(out: &mut Out, c: &Cfg, ebn0_db: f32, salt: u64, rng: &mut Rng, nll
     let sigma = sig2.sqrt();
     let mut reference = LlrStats::default();
     let rframes = (eng.n as usize / n).max(50);
+    // the reference chain sends CODEWORDS of the same code (own encoding: the tail of `systematic_code` is unit lower triangular, so the
+    // parity bits follow by forward substitution), punctured and interleaved at the same positions: a code may have a parity bit that
+    // is constant (two checks with equal systematic parts), and then the LLRs are NOT zero-mean - the reference has the same bias.
+    // Its own generator: the number of frames the engine delivered (timing dependent) must not shift anything else
+    let mut rng = Rng::new(salt ^ 0x5EED_C12);
+    let rng = &mut rng;
+    let il_obj = c.il.map(|i| ldpc_toolbox::simulation::interleaving::Interleaver::new(i.unsigned_abs(), i < 0));
+    let pu_obj = c.pat.as_ref().map(|p| ldpc_toolbox::simulation::puncturing::Puncturer::new(p));
     for _ in 0..rframes {
-        let bits: Array1<GF2> = Array1::from_iter((0..n).map(|_| gf(rng.next() & 1 == 1)));
+        let mut cw: Vec<bool> = (0..k).map(|_| rng.next() & 1 == 1).collect();
+        for row in rows.iter() {
+            let own = *row.last().unwrap();
+            let p = row.iter().filter(|&&v| v != own).fold(false, |a, &v| a ^ cw[v]);
+            debug_assert_eq!(own, cw.len());
+            cw.push(p);
+        }
+        let cw: Array1<GF2> = Array1::from_iter(cw.iter().map(|&b| gf(b)));
+        let tx = match &pu_obj { Some(p) => p.puncture(&cw).expect("fits"), None => cw };
+        let bits: Array1<GF2> = match &il_obj { Some(i) => i.interleave(&tx), None => tx };
+        assert_eq!(bits.len(), n);
         let llrs: Vec<f64> = if c.psk8 {
             let mut s = Psk8Modulator::new().modulate(&bits);
             for x in s.iter_mut() { *x += Complex::new(rng.gauss() * sigma, rng.gauss() * sigma); }
@@ -129,7 +147,7 @@ fn noise_run(out: &mut Out, c: &Cfg, ebn0_db: f32, salt: u64, rng: &mut Rng, nll
     out.ev("Noise", "ok", json!({"cfg": cj, "ebn0_e3": (ebn0 * 1e3).round() as i64, "n": n, "sig2_e4": e4(sig2), "N": eng.n, "Nref": reference.n,
         "ma_e": e4(eng.sum_abs / eng.n as f64), "ma_r": e4(reference.sum_abs / reference.n as f64),
         "m2_e": e4(eng.sum_sq / eng.n as f64), "m2_r": e4(reference.sum_sq / reference.n as f64),
-        "mean_e": e4(eng.sum / eng.n as f64), "uselag": uselag,
+        "mean_e": e4(eng.sum / eng.n as f64), "mean_r": e4(reference.sum / reference.n as f64), "uselag": uselag,
         // every transmitted position must carry noise: number of distinct LLR values seen there (capped at 64) over `frames` frames
         "pos_distinct": eng.pos_distinct.iter().map(|s| s.len()).collect::<Vec<_>>(), "frames": eng.frames,
         // independence between frames and between workers: no LLR vector is ever delivered twice
@@ -187,8 +205,9 @@ pub fn generate(a: &Args) {
         Cfg { ncw: 27, r: 12, psk8: true, pat: None, il: None },
         Cfg { ncw: 20, r: 8, psk8: true, pat: Some(vec![true, true, true, false]), il: None },
     ];
-    for c in &noise_cfgs {
-        for db in [2.0f32, 6.0] { noise_run(&mut out, c, db, rng.next(), &mut rng, nllr); }
+    for (ci, c) in noise_cfgs.iter().enumerate() {
+        // the code (salt) of each noise run depends on the seed and the configuration only
+        for (di, db) in [2.0f32, 6.0].into_iter().enumerate() { noise_run(&mut out, c, db, (a.seed ^ 0xC12).wrapping_mul(1000003) + (ci * 2 + di) as u64, &mut rng, nllr); }
     }
     out.finish();
 }
